@@ -3,11 +3,12 @@
    Specifier.filter as the generator is written: kw, yielded flag, found_prereleases list; the empty-set branch; the objects with
    their mutable override as a state machine).  Items carry their position in the input list, which stands for object identity:
    a filter result is a sub-list of the input items, so "the very objects, in input order" is what `filter _ xs` says.
-   Premises: wf_member / wf_set (no operator method raises; discharged for constructor-accepted specifiers by SpecLink.compare_op_total).
+   Premises: wf_member / wf_set (no operator method raises) - they hold for everything the constructors accept (C05_wf_specifier,
+   C05_wf_set in Properties/C05.v, through SpecLink.compare_op_total); the *_text corollaries below have no such premise.
    Statements only; proofs in Filter/SetsFilter.v. *)
 From Coq Require Import List Arith NArith Bool Lia Permutation.
 Import ListNotations.
-Require Import S1 VParse Py VMeaning SpecModel SpecParse SpecContains SetModel SetsModel SetsBridge SetsFs SetsLaws SetsFilter SpecOps VKeyEq.
+Require Import S1 VParse Py VMeaning SpecModel SpecParse SpecContains SetModel SetsModel SetsBridge SetsFs SetsLaws SetsLink SetsFilter SpecOps VKeyEq.
 Open Scope N_scope.
 
 (* 1. the gate: a pre-release candidate is matched only if pre-releases are enabled - by the argument, else by the override,
@@ -69,6 +70,12 @@ Theorem C06_filter_invalid_item_iff f texts : lift_filter f texts = FBad <-> exi
 Proof. exact (filter_bad_iff f texts). Qed.
 Print Assumptions C06_filter_invalid_item_iff.
 
+Theorem C06_filter_exact_specifier_text s sp o arg texts xs : Specifier s = Some sp -> coerce_from 0 texts = Some xs ->
+  (arg <> None \/ o <> None \/ auto_pre sp = true) ->
+  spec_filter sp o arg texts = FOk (map fst (filter (fun x => is_true (contains_v sp o arg (snd x))) xs)).
+Proof. intros H. exact (spec_filter_exact_top sp o arg texts xs (Specifier_wf_member s sp H)). Qed.
+Print Assumptions C06_filter_exact_specifier_text.
+
 (* 5. the fall-back case of a single Specifier (no argument, no override, the text names no pre-release):
       the accepted final releases if there is one, else the matching pre-releases - pre-releases are returned iff no final matched *)
 Theorem C06_fallback_specifier sp xs : wf_member sp -> wf_items xs -> auto_pre sp = false ->
@@ -92,6 +99,11 @@ Theorem C06_filter_exact_set_positions S arg texts xs : ms S <> [] -> wf_set S -
   set_filter S arg texts = FOk (map fst (filter (fun x => is_true (set_contains_v S arg None (snd x))) xs)).
 Proof. exact (set_filter_exact_top S arg texts xs). Qed.
 Print Assumptions C06_filter_exact_set_positions.
+
+Theorem C06_filter_exact_set_text s p S arg texts xs : SpecifierSet s p = Some S -> ms S <> [] -> coerce_from 0 texts = Some xs ->
+  set_filter S arg texts = FOk (map fst (filter (fun x => is_true (set_contains_v S arg None (snd x))) xs)).
+Proof. intros H NE. exact (set_filter_exact_top S arg texts xs NE (SpecifierSet_wf s p S H)). Qed.
+Print Assumptions C06_filter_exact_set_text.
 
 (* 7. the empty set: exact filter under an explicit setting; with no setting at all the final releases, or - iff there is none -
       everything (which then consists of pre-releases only) *)
